@@ -10,6 +10,7 @@ from .ops import _fn
 class ExtrasMixin:
     # ------------------------------------------------------------ isinstance / hasattr
     def isinstance_(self, v, cls):
+        v = self.force(v)
         if isinstance(cls, VTuple):
             return z3.Or([self.isinstance_(v, c) for c in cls.items])
         if isinstance(cls, VBuiltin):
@@ -324,6 +325,10 @@ class ExtrasMixin:
         return self.oldify(v)
 
     def oldify(self, v, like=None):
+        if isinstance(v, VOpt):
+            if v.forced is None and v.ty[0] not in ("obj", "list", "dict", "set"):
+                return v
+            v = self.force(v)
         if isinstance(v, VRef) and v.kind != "lock":
             if like is not None and like in self.run.alias_heap:
                 return self.run.old_view(v, self.run.alias_heap[like], f"view:{id(self.run.alias_heap[like])}")
@@ -444,6 +449,35 @@ class ExtrasMixin:
         suf = node.args[0].value
         return VInt(len([c for c in self.run.contract_calls if c["name"].endswith(suf)]))
 
+    def spec_exists_index(self, node, frame):
+        """exists_index(L, lambda i: P(i)) for a symbolic list of objects: proved by WITNESS -- the disjunction of P over the index terms of
+        the elements of L materialised on this path (the code can only have used such an element).  Sound: the disjunction implies the
+        existential; a failure may in principle be incompleteness, so a counter-model is replayed natively like any other."""
+        L = self.force(self.eval(node.args[0], frame))
+        lam = node.args[1]
+        if not isinstance(lam, ast.Lambda) or len(lam.args.args) != 1:
+            raise E.Unsupported("exists_index needs a one-argument lambda")
+        base = L
+        if isinstance(L, VRef) and L.oid in self.run.old_alias:
+            pass
+        r = self.run.rec(L.oid)
+        if r.concrete:
+            cands = [z3.IntVal(i) for i in range(len(r.items))]
+        else:
+            shift = r.shift
+            cands = []
+            for (qterm, _qn) in list(self.run.elem_index.get(r.sym, [])):
+                cands.append(E.simp(qterm - shift) if not isinstance(shift, int) or shift else qterm)
+        var = lam.args.args[0].arg
+        ds = []
+        for c in cands:
+            f2 = E.Frame(frame.relpath, frame.ci, {var: VInt(c)}, frame, frame.fname)
+            inr = z3.And(c >= 0, c < (r.length if not r.concrete else len(r.items)))
+            t = self.under(inr, lambda: self.truthy(self.eval(lam.body, f2)))
+            if t is not None:
+                ds.append(z3.And(inr, t))
+        return VBool(E.simp(z3.Or(ds)) if ds else False)
+
     def spec_nth_value(self, node, frame):
         """value stored under the j-th key (in iteration order) of a symbolic dict"""
         d = self.eval(node.args[0], frame)
@@ -464,10 +498,10 @@ class ExtrasMixin:
         return VBool(z3.Function("mv#ok", AnySort, AnySort, z3.BoolSort())(self.inject(recv), self.inject(d)))
 
     def spec_is_str(self, node, frame):
-        return VBool(isinstance(self.eval(node.args[0], frame), VStr))
+        return VBool(isinstance(self.force(self.eval(node.args[0], frame)), VStr))
 
     def spec_is_obj(self, node, frame):
-        v = self.eval(node.args[0], frame)
+        v = self.force(self.eval(node.args[0], frame))
         return VBool(isinstance(v, VRef) and v.kind == "obj")
 
     def spec_truthy(self, node, frame):
@@ -513,7 +547,10 @@ class ExtrasMixin:
         return VBool(_fn("encodable", z3.StringSort(), z3.BoolSort())(v.t))
 
     def spec_is_none(self, node, frame):
-        return VBool(isinstance(self.eval(node.args[0], frame), VNone))
+        v = self.eval(node.args[0], frame)
+        if isinstance(v, VOpt) and v.forced is None:
+            return VBool(v.isnone)
+        return VBool(isinstance(self.force(v), VNone))
 
     # ------------------------------------------------------------ loop cutting
     def write_set(self, stmts, frame, seen=None):
